@@ -139,6 +139,7 @@ type summary struct {
 	Used     []string
 	Req      []string
 	RootExts []string
+	Version  string // asset.version
 }
 
 type obj = map[string]any
@@ -240,6 +241,7 @@ func readDoc(js []byte) (summary, error) {
 	if err := dec.Decode(&root); err != nil {
 		return s, err
 	}
+	s.Version = gStr(gObj(root, "asset"), "version")
 	for _, b := range gArr(root, "buffers") {
 		bo, _ := b.(obj)
 		s.Buffers = append(s.Buffers, gIntD(bo, "byteLength"))
@@ -536,9 +538,9 @@ func coqSummary(s summary, fail *string) string {
 	for i, b := range s.Buffers {
 		bufs[i] = nn(b)
 	}
-	return fmt.Sprintf("{| s_buffers := %s; s_views := %s;\n s_accs := %s;\n s_meshes := %s; s_nodes := %s; s_scenes := %s; s_scene := %s;\n s_mats := %s; s_texs := %s; s_images := %s; s_samplers := %s; s_lights := %s; s_used := %s; s_req := %s; s_root_exts := %s |}",
+	return fmt.Sprintf("{| s_buffers := %s; s_views := %s;\n s_accs := %s;\n s_meshes := %s; s_nodes := %s; s_scenes := %s; s_scene := %s;\n s_mats := %s; s_texs := %s; s_images := %s; s_samplers := %s; s_lights := %s; s_used := %s; s_req := %s; s_root_exts := %s; s_version := %s |}",
 		cList(bufs), coqViews(s.Views), coqAccs(s.Accs), cList(meshes), cList(nodes), cList(scenes), nn(s.Scene),
-		cList(mats), cList(texs), cStrs(s.Images), cList(samps), cList(lights), cStrs(s.Used), cStrs(s.Req), cStrs(s.RootExts))
+		cList(mats), cList(texs), cStrs(s.Images), cList(samps), cList(lights), cStrs(s.Used), cStrs(s.Req), cStrs(s.RootExts), cstr(s.Version))
 }
 
 func coqGlb(g glbInfo) string {
